@@ -509,23 +509,23 @@ func (c capLogger) rec(msg string, args ...interface{}) {
 	}
 }
 
-func (c capLogger) Log(level hclog.Level, msg string, args ...interface{}) { c.rec(msg, args...) }
-func (c capLogger) Trace(msg string, args ...interface{})                  { c.rec(msg, args...) }
-func (c capLogger) Debug(msg string, args ...interface{})                  {}
-func (c capLogger) Info(msg string, args ...interface{})                   {}
-func (c capLogger) Warn(msg string, args ...interface{})                   {}
-func (c capLogger) Error(msg string, args ...interface{})                  {}
-func (c capLogger) IsTrace() bool                                          { return true }
-func (c capLogger) IsDebug() bool                                          { return true }
-func (c capLogger) IsInfo() bool                                           { return true }
-func (c capLogger) IsWarn() bool                                           { return true }
-func (c capLogger) IsError() bool                                          { return true }
-func (c capLogger) ImpliedArgs() []interface{}                             { return nil }
-func (c capLogger) With(args ...interface{}) hclog.Logger                  { return c }
-func (c capLogger) Name() string                                           { return "" }
-func (c capLogger) Named(name string) hclog.Logger                         { return c }
-func (c capLogger) ResetNamed(name string) hclog.Logger                    { return c }
-func (c capLogger) SetLevel(level hclog.Level)                             {}
+func (c capLogger) Log(level hclog.Level, msg string, args ...interface{})  { c.rec(msg, args...) }
+func (c capLogger) Trace(msg string, args ...interface{})                   { c.rec(msg, args...) }
+func (c capLogger) Debug(msg string, args ...interface{})                   {}
+func (c capLogger) Info(msg string, args ...interface{})                    {}
+func (c capLogger) Warn(msg string, args ...interface{})                    {}
+func (c capLogger) Error(msg string, args ...interface{})                   {}
+func (c capLogger) IsTrace() bool                                           { return true }
+func (c capLogger) IsDebug() bool                                           { return true }
+func (c capLogger) IsInfo() bool                                            { return true }
+func (c capLogger) IsWarn() bool                                            { return true }
+func (c capLogger) IsError() bool                                           { return true }
+func (c capLogger) ImpliedArgs() []interface{}                              { return nil }
+func (c capLogger) With(args ...interface{}) hclog.Logger                   { return c }
+func (c capLogger) Name() string                                            { return "" }
+func (c capLogger) Named(name string) hclog.Logger                          { return c }
+func (c capLogger) ResetNamed(name string) hclog.Logger                     { return c }
+func (c capLogger) SetLevel(level hclog.Level)                              {}
 func (c capLogger) StandardLogger(*hclog.StandardLoggerOptions) *log.Logger { return nil }
 func (c capLogger) StandardWriter(*hclog.StandardLoggerOptions) io.Writer   { return io.Discard }
 
@@ -628,13 +628,20 @@ func (sc *scenario) funcIDOf(f *am.Func) int {
 
 // callOnce performs Funcs[0].Call(call options…) with the capturing logger and the pop hook and
 // returns the protocol lines of this run.
-func (sc *scenario) callOnce() []string {
+func (sc *scenario) callOnce() []string { return sc.callWith(0, nil) }
+
+// callWith calls function object fid (0 = the target) with the call options, leaving out the option
+// indices in omit.
+func (sc *scenario) callWith(fid int, omit map[int]bool) []string {
 	sc.events = nil
 	sc.pops = nil
-	target := sc.Funcs[0]
+	target := sc.Funcs[fid]
 	var args []am.Arg
 	args = append(args, am.Logger(capLogger{sc}))
-	for _, o := range sc.Opts[sc.Defaults:] {
+	for i, o := range sc.Opts {
+		if i < sc.Defaults || omit[i] {
+			continue
+		}
 		args = append(args, sc.mkArg(o))
 	}
 	am.VerifSetPopHook(func(h interface{}) { sc.pops = append(sc.pops, sc.hashName(h)) })
@@ -707,16 +714,28 @@ func (sc *scenario) dumpGraph(redefining bool, extra ...am.Arg) string {
 	return fmt.Sprintf("dump %s v=%s e=%s", st, strings.Join(vs, ","), strings.Join(es, ","))
 }
 
-// renderOuts lists the provenance ids of a successful result (a built function returns its output
-// struct: one id per field after the marker).
+// renderOuts lists the provenance ids of a successful result, one per output value of the function:
+// positional results directly, a (pointer to a) result struct field by field after the marker.
 func renderOuts(target *fnSpec, res am.Result) []string {
 	var os []string
-	if target.Form == "built" && len(target.Outs) > 0 && res.Len() == 1 {
+	structForm := (target.Form == "built" || target.OForm == "struct" || target.OForm == "ptr") && len(target.Outs) > 0
+	if structForm && res.Len() == 1 {
 		sv := reflect.ValueOf(res.Out(0))
-		for i := 1; i < sv.NumField(); i++ {
-			os = append(os, fmt.Sprint(vidOf(sv.Field(i))))
+		for sv.IsValid() && sv.Kind() == reflect.Ptr {
+			if sv.IsNil() {
+				for range target.Outs {
+					os = append(os, "0")
+				}
+				return os
+			}
+			sv = sv.Elem()
 		}
-		return os
+		if sv.IsValid() && sv.Kind() == reflect.Struct {
+			for i := 1; i < sv.NumField(); i++ {
+				os = append(os, fmt.Sprint(vidOf(sv.Field(i))))
+			}
+			return os
+		}
 	}
 	for i := 0; i < res.Len(); i++ {
 		os = append(os, fmt.Sprint(vidOf(reflect.ValueOf(res.Out(i)))))
